@@ -7,15 +7,16 @@ substitutions run on the real reader with rd in {1,4} and are validated by TLC."
 import json
 from checks import _reader
 LEVEL = "fault_enumeration"
-TRACE_CFG = {"ReaderTrace": "ReaderTrace.cfg"}
+TRACE_CFG = {"ReaderTrace": "ReaderTrace.cfg", "BamCut": "BamCut.cfg"}
 
 
 def run(ctx):
     ctx.rule = ("streams built by the harness's member encoder (3 quick / 25 thorough files); every cut 0..len-1 for streams < 2000 bytes, "
                 "+-40 bytes around every member boundary and a stride of 997 for larger; substitutions at the same positions x {+1, xor 0x80} "
-                "(thorough also 0x00, 0xff); rd in {1,4}; each stream read sequentially to the end and beyond; distinct = scenarios")
-    ctx.assumptions = _reader.ASSUME + ["BAM record-level truncation (records cut at member boundaries) is covered by C05/C13's BAM reader traces when built; "
-                                        "this check decides the BGZF layer",
+                "(thorough also 0x00, 0xff) plus BSIZE rewritten (one byte) to end the member at/around a later member's start; rd in {1,4}; each stream read "
+                "sequentially to the end and beyond; BAM: 4 (quick) / 14 (thorough) record-size profiles, all cuts at/around member boundaries; distinct = scenarios")
+    ctx.assumptions = _reader.ASSUME + ["BAM half: streams written by bam.Writer, cut at every member boundary, +-1 byte, a few bytes into the next member and mid-member; "
+                                        "record ranges from the harness's own walk over the inflated stream",
                                         "a byte altered in a field the format does not protect (MTIME, XFL, OS) legitimately yields the original data"]
     _reader.model(ctx, ["fixed_fault", "c02_rd1"], ["fixed_fault", "c02_rd1", "c02_q"])
     ctx.build()
@@ -32,6 +33,14 @@ def run(ctx):
             outcomes[e["err"]] = outcomes.get(e["err"], 0) + 1
     ctx.extra["error_replies"] = outcomes
     ctx.add_samples(trace, n=2, maxlines=8)
+    # BAM half: streams written by bam.Writer cut at / around member boundaries, read through bam.Reader
+    t2 = ctx.work + "/bamcut.ndjson"
+    s2 = ctx.drive(["c13", "--mode", "bamcuts", "--out", t2], timeout=3600)
+    ctx.extra["bam_driver"] = s2
+    ctx.evaluations += s2["lines"]
+    ctx.distinct += s2["scenarios"]
+    ctx.validate("BgzfReader", "BamCut", "BamCut.cfg", t2)
+    ctx.add_samples(t2, n=1, maxlines=8)
     if ctx.tier == "thorough":
         ctx.selftest("BgzfReader", "ReaderTrace", "ReaderTrace.cfg", trace,
                      [("wrong-byte", _reader.mut_data), ("early-EOF", _reader.mut_early_eof)], max_scen=200)
